@@ -105,7 +105,11 @@ PROP = dict(
               "+-9999, +-20000} (FFT length 131072), clean and -30 dB noise; delayseq of 100000 samples, d in {0, +-1, 4096, 65535, "
               "+-65536, -65537, +-99999, 100000, 100001}, real and complex; detector: streams of 140250 (zc139) / 140562 (zc512) "
               "samples fed 1 and 2 frames per call with the preamble ending on sample 65535, starting on sample 65536 and straddling "
-              "it, silence / floor, thresholds 0.5, 0.9",
+              "it, silence / floor, thresholds 0.5, 0.9; EXACT-ZERO frames: streams [2 frames of traffic][1, 2 or 5 frames exactly zero in every "
+              "sample][2 frames of traffic], traffic = noise 40 / 20 dB below the preamble power, preamble absent / ending on the last "
+              "sample before the gap / ending mid-frame before the gap / starting on the first sample after the gap, every preamble, 3 "
+              "amplitudes, 4 thresholds, 1 and 2 frames per call; in the silence variant of the preamble streams every frame without "
+              "preamble samples is exactly zero",
         thorough="estimators: every len in 128..1100 (3 letters x {clean, -40 dB, -30 dB}), "
                  "len {2047,2048,2049,4095,4096,5000,8191,8192} (1 letter x {clean, -30 dB}) - i.e. every power of two 128..8192 and the "
                  "lengths just below / above - each with every d in [-len/4, len/4], fs {1, 8000, 48000}, and the BIG lengths of quick; "
@@ -115,7 +119,8 @@ PROP = dict(
                  "{16,17,23,31,32,33,47,63,64,100,127,128,139,199,255,256,300,511,512} x 2 roots and m-sequences {31,63,127,255,511} "
                  "(frame lengths 17..725), every offset modulo frame_len (incl. preamble starting on the first sample of a frame), "
                  "preamble ending in frame 1 and in frame 2, thresholds {0.3,0.4,0.5,0.6,0.7,0.8,0.9,0.95}; reset histories a-d and "
-                 "rejected-call histories (3 placements x 4 L_bad) at the 32 boundary/spread offsets per preamble; long streams as quick"),
+                 "rejected-call histories (3 placements x 4 L_bad) at the 32 boundary/spread offsets per preamble; long streams and "
+                 "exact-zero-frame streams as quick over the larger preamble / threshold grid"),
     deadline=dict(quick=150, thorough=3000),
     assumptions=COMMON_ASSUME + [
         "white signal = fixed deterministic letters (sum of 4 LCG uniforms, unit variance); noise = another such letter 30 / 40 dB below",
